@@ -134,14 +134,18 @@ inductive ReadRes where
   | panic                     -- "WAL reader is supposed to start after seqNum … but firstSeqNum in WAL file is …"
 deriving DecidableEq, Repr
 
-/-- `Reader.All()` on the bytes of an existing file with start marker `after` -/
+/-- arithmetic on the start marker wraps at the width of its Go type (`Reader.startAfter uint64`) -/
+def seqMod : Nat := 2 ^ Facts.walSeqBits
+
+/-- `Reader.All()` on the bytes of an existing file with start marker `after` (`after < seqMod`) -/
 def readAll (data : Bytes) (after : Nat) : ReadRes :=
   if data.isEmpty then .ok [] else
   match readNat u64W data with
   | none => .err []
   | some (first, _) =>
-    if after + 1 < first then .panic else
-    match skipRecs (after + 1 - first) data with
+    -- Go computes in the marker's unsigned type: `(startAfter + 1) < first`, `startAfter - first + 1`
+    if (after + 1) % seqMod < first then .panic else
+    match skipRecs ((after + seqMod - first + 1) % seqMod) data with
     | none => .err []
     | some r =>
       match readRecs (r.length + 1) r with
